@@ -399,6 +399,16 @@ class SymReal(_SymNum):
         return self
 
 
+class KeyReal(SymReal):
+    """SymReal usable as a dictionary key without being concretised: hashes by term identity.  Sound as long as the
+    very same value object is used for storing and looking up (dict compares identity first); comparisons and
+    arithmetic stay symbolic."""
+    __slots__ = ()
+
+    def __hash__(self):
+        return hash(('KeyReal', self.e.get_id()))
+
+
 class SymChoice:
     """One of a finite list of concrete Python objects, chosen by a z3 Int index.  Equality is lazy (a SymBool);
     hashing, truthiness, ``str`` and unknown attribute access concretise (an n-way fork decided by the solver)."""
